@@ -231,7 +231,7 @@ func TestVerifC19(t *testing.T) {
 			return
 		}
 		x := sched.RunOnce(c19Body(t, img, tok, n, kinds), rp.Choices, rp.Fine)
-		if v, _ := x.Obs.(*Verdict); v != nil && v.Violation != "" {
+		if v, _ := x.Obs.(*Verdict); v != nil && v.Violation != "" && x.Stuck == "" {
 			res.Violate(v.Sig, v.Violation, rp)
 		}
 		return
